@@ -472,7 +472,7 @@ theorem tok_step (s s' : State) (e : Ev) (h : Ctl s) (h2 : Tok s) (hs : step s e
     · next hpc =>
       have hnw : s.winner ≠ some t := fun hw => by have := h.wne t hw; rw [hpc] at this; simp [ph] at this
       split at hs <;> (simp only [Option.some.injEq] at hs; subst hs)
-      · have hwp : wpc { setC s t .returnedNil with returns := (t, none) :: s.returns } = wpc s := by
+      · have hwp : wpc (setC s t .waitWinner) = wpc s := by
           simp only [wpc, setC]; split
           · rfl
           · next w hw => have : w ≠ t := fun e => hnw (e ▸ hw); simp [this]
@@ -561,7 +561,8 @@ theorem tok_step (s s' : State) (e : Ev) (h : Ctl s) (h2 : Tok s) (hs : step s e
       split at hs
       · next hcl =>
         simp only [Option.some.injEq] at hs; subst hs
-        have hw1 : wpc { setC s t (.returned s.err) with log := .reporterClose :: s.log, returns := (t, s.err) :: s.returns } = .returned s.err := by
+        have hw1 : wpc { setC s t (.returned s.err) with log := .reporterClose :: s.log, returns := (t, s.err) :: s.returns,
+                                                         closeDone := true } = .returned s.err := by
           simp [wpc, setC, hw]
         refine ⟨?_, ?_, ?_, h2.dropNoPre, ?_, ?_, h2.fresh, h2.nodup⟩
         · rw [hw1]
@@ -577,7 +578,7 @@ theorem tok_step (s s' : State) (e : Ev) (h : Ctl s) (h2 : Tok s) (hs : step s e
         · rw [hw1]; exact hcons
       · next hcl =>
         simp only [Option.some.injEq] at hs; subst hs
-        have hw1 : wpc { setC s t (.returned none) with returns := (t, none) :: s.returns } = .returned none := by
+        have hw1 : wpc { setC s t (.returned none) with returns := (t, none) :: s.returns, closeDone := true } = .returned none := by
           simp [wpc, setC, hw]
         refine ⟨?_, ?_, ?_, h2.dropNoPre, ?_, ?_, h2.fresh, h2.nodup⟩
         · rw [hw1]
@@ -593,6 +594,16 @@ theorem tok_step (s s' : State) (e : Ev) (h : Ctl s) (h2 : Tok s) (hs : step s e
         · rw [hw1]; exact hcons
     · cases hs
     · cases hs
+    · next hpc =>
+      have hnw : s.winner ≠ some t := fun hw => by have := h.wne t hw; rw [hpc] at this; simp [ph] at this
+      split at hs
+      · simp only [Option.some.injEq] at hs; subst hs
+        have hwp : wpc { setC s t .returnedNil with returns := (t, none) :: s.returns } = wpc s := by
+          simp only [wpc, setC]; split
+          · rfl
+          · next w hw => have : w ≠ t := fun e => hnw (e ▸ hw); simp [this]
+        exact h2.frame hwp rfl rfl rfl rfl rfl rfl rfl
+      · cases hs
 
 theorem tok_run (s s' : State) (es : List Ev) (h : Ctl s) (h2 : Tok s) (hr : run s es = some s') : Tok s' := by
   induction es generalizing s with
